@@ -26,3 +26,11 @@ Print Assumptions C16_one_token_per_round.
 (* non-vacuity: recipe [_, 2, 0, 1] on three ingredient edges gives the tags 1,1,3 *)
 Example C16_witness : recipe_tags 1 3 [9; 2; 0; 1]%nat = Some [1; 1; 3]%nat /\ recipe_tags 1 3 [9; 2]%nat = None.
 Proof. vm_compute. auto. Qed.
+
+(* the loop that issues those reservations, regenerated from Combiner.behaviour on every run (tie B,
+   theories/Nodes/TieNodes.v): it starts at in-edge 1 and reads the recipe at the in-edge's own index *)
+From FV Require SrcFragments TieNodes.
+Theorem C16_recipe_loop_regenerated :
+  SrcFragments.Combiner_first_ingredient_edge = 1%Z /\ (forall k : Z, SrcFragments.Combiner_recipe_index k = k).
+Proof. exact (conj TieNodes.combiner_first_ingredient_edge_src TieNodes.combiner_recipe_index_src). Qed.
+Print Assumptions C16_recipe_loop_regenerated.
